@@ -33,6 +33,8 @@ pub struct Layout {
     pub typ: Option<(usize, usize, i16, i16)>,
     /// byte that must be non-zero for plausibility (acct_v3 ac_version), with value
     pub nonzero: Option<(usize, u8)>,
+    /// offset of the four 32-bit words of `ut_addr_v6` (Linux utmpx layouts)
+    pub addr: Option<usize>,
 }
 
 macro_rules! sf {
@@ -68,6 +70,7 @@ pub fn layouts() -> Vec<Layout> {
             pid: Some(("ut_pid", offset_of!(fs::linux_x86::utmpx, ut_pid))),
             typ: Some((offset_of!(fs::linux_x86::utmpx, ut_type), 2, 8, 1)),
             nonzero: None,
+            addr: Some(offset_of!(fs::linux_x86::utmpx, ut_addr_v6)),
         },
         Layout {
             id: "linux_arm64_utmpx",
@@ -86,6 +89,7 @@ pub fn layouts() -> Vec<Layout> {
             pid: Some(("ut_pid", offset_of!(fs::linux_arm64aarch64::utmpx, ut_pid))),
             typ: Some((offset_of!(fs::linux_arm64aarch64::utmpx, ut_type), 2, 8, 1)),
             nonzero: None,
+            addr: Some(offset_of!(fs::linux_arm64aarch64::utmpx, ut_addr_v6)),
         },
         Layout {
             id: "freebsd_x8664_utmpx",
@@ -104,6 +108,7 @@ pub fn layouts() -> Vec<Layout> {
             pid: Some(("ut_pid", offset_of!(fs::freebsd_x8664::utmpx, ut_pid))),
             typ: Some((offset_of!(fs::freebsd_x8664::utmpx, ut_type), 2, 8, 1)),
             nonzero: None,
+            addr: None,
         },
         Layout {
             id: "netbsd_x8632_utmpx",
@@ -122,6 +127,7 @@ pub fn layouts() -> Vec<Layout> {
             pid: Some(("ut_pid", offset_of!(fs::netbsd_x8632::utmpx, ut_pid))),
             typ: Some((offset_of!(fs::netbsd_x8632::utmpx, ut_type), 2, 8, 1)),
             nonzero: None,
+            addr: None,
         },
         Layout {
             id: "netbsd_x8664_utmpx",
@@ -140,6 +146,7 @@ pub fn layouts() -> Vec<Layout> {
             pid: Some(("ut_pid", offset_of!(fs::netbsd_x8664::utmpx, ut_pid))),
             typ: Some((offset_of!(fs::netbsd_x8664::utmpx, ut_type), 2, 8, 1)),
             nonzero: None,
+            addr: None,
         },
         Layout {
             id: "netbsd_x8664_utmp",
@@ -157,6 +164,7 @@ pub fn layouts() -> Vec<Layout> {
             pid: None,
             typ: None,
             nonzero: None,
+            addr: None,
         },
         Layout {
             id: "openbsd_x86_utmp",
@@ -174,6 +182,7 @@ pub fn layouts() -> Vec<Layout> {
             pid: None,
             typ: None,
             nonzero: None,
+            addr: None,
         },
         Layout {
             id: "linux_x86_lastlog",
@@ -187,6 +196,7 @@ pub fn layouts() -> Vec<Layout> {
             pid: None,
             typ: None,
             nonzero: None,
+            addr: None,
         },
         Layout {
             id: "linux_arm64_lastlog",
@@ -200,6 +210,7 @@ pub fn layouts() -> Vec<Layout> {
             pid: None,
             typ: None,
             nonzero: None,
+            addr: None,
         },
         Layout {
             id: "netbsd_x8664_lastlog",
@@ -213,6 +224,7 @@ pub fn layouts() -> Vec<Layout> {
             pid: None,
             typ: None,
             nonzero: None,
+            addr: None,
         },
         Layout {
             id: "openbsd_x86_lastlog",
@@ -226,6 +238,7 @@ pub fn layouts() -> Vec<Layout> {
             pid: None,
             typ: None,
             nonzero: None,
+            addr: None,
         },
         Layout {
             id: "netbsd_x8632_lastlogx",
@@ -239,6 +252,7 @@ pub fn layouts() -> Vec<Layout> {
             pid: None,
             typ: None,
             nonzero: None,
+            addr: None,
         },
         Layout {
             id: "linux_x86_acct",
@@ -252,6 +266,7 @@ pub fn layouts() -> Vec<Layout> {
             pid: None,
             typ: None,
             nonzero: None,
+            addr: None,
         },
         Layout {
             id: "linux_x86_acct_v3",
@@ -265,6 +280,7 @@ pub fn layouts() -> Vec<Layout> {
             pid: Some(("ac_pid", offset_of!(fs::linux_x86::acct_v3, ac_pid))),
             typ: None,
             nonzero: Some((offset_of!(fs::linux_x86::acct_v3, ac_version), 3)),
+            addr: None,
         },
         Layout {
             id: "netbsd_x8632_acct",
@@ -278,6 +294,7 @@ pub fn layouts() -> Vec<Layout> {
             pid: None,
             typ: None,
             nonzero: None,
+            addr: None,
         },
     ]
 }
@@ -299,6 +316,9 @@ pub struct FRec {
     /// the value of the field still ends at the first NUL
     #[serde(default)]
     pub stale: u8,
+    /// the four words of `ut_addr_v6` (layouts that have the field): words 1..3 zero = an IPv4 address in word 0
+    #[serde(default)]
+    pub addr: [u32; 4],
 }
 
 #[derive(Clone, Debug, Serialize, Deserialize, PartialEq, Eq)]
@@ -376,6 +396,11 @@ impl FixedFile {
                     if let Some((o, v)) = l.nonzero {
                         b[o] = v;
                     }
+                    if let Some(o) = l.addr {
+                        for (k, w) in r.addr.iter().enumerate() {
+                            b[o + 4 * k..o + 4 * k + 4].copy_from_slice(&w.to_le_bytes());
+                        }
+                    }
                 }
             }
             out.extend_from_slice(&b);
@@ -413,11 +438,17 @@ pub fn fixed_file(max_recs: usize, layouts_allowed: Vec<usize>) -> BoxedStrategy
         0i16..8,
         prop_oneof![9 => Just(0u8), 1 => 1u8..16],
         prop_oneof![9 => Just(0u8), 1 => 1u8..16],
+        // ut_addr_v6: mostly absent, else an IPv4 word or an IPv6 address with any subset of words 1..3 zero
+        prop_oneof![
+            6 => Just([0u32; 4]),
+            2 => any::<u32>().prop_map(|a| [a, 0, 0, 0]),
+            3 => (any::<u32>(), prop_oneof![Just(0u32), any::<u32>()], prop_oneof![Just(0u32), any::<u32>()], prop_oneof![Just(0u32), 1u32..4, any::<u32>()]).prop_map(|(a, b, c, d)| [a, b, c, d]),
+        ],
     );
     (prop::sample::select(layouts_allowed), 1_000_000_000i64..1_800_000_000, prop::collection::vec(rec, 1..=max_recs))
         .prop_map(|(layout, base, recs)| FixedFile {
             layout,
-            recs: recs.into_iter().enumerate().map(|(i, (ds, usec, null, pid, typ, full, stale))| FRec { sec: base + ds, usec, null, pid, typ, serial: i as u32, full, stale }).collect(),
+            recs: recs.into_iter().enumerate().map(|(i, (ds, usec, null, pid, typ, full, stale, addr))| FRec { sec: base + ds, usec, null, pid, typ, serial: i as u32, full, stale, addr }).collect(),
         })
         .boxed()
 }
